@@ -206,7 +206,7 @@ def ws(chk, fx):
     if len(calls) != 1:
         chk.incomplete("skip_whitespace: expected one find_char call")
     txt = cn.c(A.call_args(calls[0])[1])
-    m = re.fullmatch(r"\((\$0\.options\.skip_newline) \? const char\[\d+\]\{([\d, ]*)\} : const char\[\d+\]\{([\d, ]*)\}\)", txt)
+    m = re.fullmatch(r"\((\$0\.options\.skip_newline) \? (?:const )?char\[\d+\]\{([\d, ]*)\} : (?:const )?char\[\d+\]\{([\d, ]*)\}\)", txt)
     site = A.site(f, calls[0])
     if not m:
         chk.incomplete("skip_whitespace: whitespace tables not recognised (%s)" % txt[:100])
